@@ -595,7 +595,13 @@ func c15Operands(c *core.Ctx) {
 
 // c15Transport: the mask stays attached to its elements through lazy and physical transposition and slicing.
 func c15Transport(c *core.Ctx) {
-	t := model.TInt32
+	for _, t := range []reflect.Type{model.TInt32, model.TStr, model.TC128} {
+		c15TransportType(c, t)
+	}
+	c.Control(true)
+}
+
+func c15TransportType(c *core.Ctx, t reflect.Type) {
 	shapes := [][]int{{2, 3}, {3, 1}, {1, 4}, {2, 3, 2}, {3, 3}, {2, 2, 2, 2}}
 	for _, shape := range shapes {
 		n := model.Size(shape)
@@ -699,11 +705,20 @@ func c15Transport(c *core.Ctx) {
 							continue
 						}
 					}
-					checkMask("Slice/"+lay, vd, want, map[string]interface{}{"layout": lay, "shape": shape, "slices": specsStr(specs), "mask": mask})
+					sdesc := map[string]interface{}{"layout": lay, "shape": shape, "slices": specsStr(specs), "mask": mask, "dtype": model.Name(t)}
+					checkMask("Slice/"+lay, vd, want, sdesc)
+					// ... and through a copy of the slice: the copy has its own, compact storage, the mask has to be compacted with it
+					if vd.IsMasked() && len(got) > 0 {
+						if md, ok := vd.Materialize().(*tensor.Dense); ok && md != vd {
+							checkMask("Slice+Materialize/"+lay, md, want, sdesc)
+						}
+						if cd, ok := vd.Clone().(*tensor.Dense); ok {
+							checkMask("Slice+Clone/"+lay, cd, want, sdesc)
+						}
+					}
 				}
 			}
 		}
 	}
-	c.Control(true)
 	c.Sample("transport", map[string]interface{}{"ops": "T(p), Transpose, Slice", "layouts": "C, F"})
 }
